@@ -5,6 +5,7 @@ import (
 	"strconv"
 	"strings"
 	"unicode"
+	"unicode/utf8"
 )
 
 type TokenType byte
@@ -410,12 +411,30 @@ func isFloat(val string) bool {
 	return false
 }
 
+// lowerWord folds the letters of a word to lower case. Bytes that are not
+// valid UTF-8 are kept as they are (strings.ToLower turns each of them into
+// U+FFFD, which made a\xff and a\xfe the same name).
+func lowerWord(word string) string {
+	var sb strings.Builder
+	sb.Grow(len(word))
+	for i := 0; i < len(word); {
+		r, size := utf8.DecodeRuneInString(word[i:])
+		if r == utf8.RuneError && size == 1 {
+			sb.WriteByte(word[i])
+		} else {
+			sb.WriteRune(unicode.ToLower(r))
+		}
+		i += size
+	}
+	return sb.String()
+}
+
 func buildToken(curr string, pos int) *Token {
 	// The blanks that are trimmed in front of the word (tab, line end) are
 	// not part of the token, its text begins behind them
 	word := strings.TrimLeftFunc(curr, unicode.IsSpace)
 	pos += len(curr) - len(word)
-	curr = strings.ToLower(strings.TrimSpace(word))
+	curr = lowerWord(strings.TrimSpace(word))
 	if len(curr) == 0 {
 		return nil
 	}
